@@ -1,3 +1,3 @@
 From Coq Require Import ExtrOcamlBasic NArith List.
 From LV Require Import lib.Conv model.VecIndex spec.FcSpec spec.ElectionSpec model.Abft model.AbftRun.
-Extraction "model.ml" conv_roots reference reference_epochs next_vals fc_crosscheck run start sample.
+Extraction "model.ml" conv_roots reference reference_epochs delivered_spec next_vals fc_crosscheck run start sample.
